@@ -42,6 +42,11 @@ CLAIMS.update({
     "C14": ("regex-tree queries on the fixed-form lexical patterns + dominating-facts check of every free/fixed pattern use", "Decides: FIXED_COMMENT/FIXED_DOC start with exactly {! c C d D *} and are applied at column 1, FIXED_CONT is five blanks plus a non-blank, LINE_LABEL is digits plus blank; every use of a FREE_* pattern is in the not-fixed arm of a test of the form flag and the function has a fixed-form arm; every whole-buffer writer re-detects the form and the parser re-derives its comment patterns; the stripped label reaches the labelled-DO closer. Not decided: equality of the two renderings' indexes, the content heuristic detect_fixed_format."),
 })
 
+CLAIMS.update({
+    "C10": ("interprocedural write-effect summaries (roots self/param/global, freshness, return aliasing) + CFG dominance in the resolvers and the re-index routine", "Decides which state can survive re-indexing at all: no read-only request (nor computing diagnostics) writes a field of the server, a file, an AST or an entity; every resolver that looks a name up resets or reassigns its link on every path and link containers are emptied before refilling; no link is cached outside the re-link path; old top-level entries are pruned before the new AST is installed, a failed parse touches nothing, closing a deleted file prunes; parsing does not mutate the option objects it is given. Not decided: equality with a fresh server over all histories."),
+    "C15": ("effect summary of the pool worker + dominance/order checks of the phase structure + sibling comparison", "Decides the phase structure that makes the start-up index schedule-independent: the worker is a static function whose transitive writes touch only fresh objects and the per-process keyword-order global; join precedes the first result.get(); the merge loop resolves nothing across files; includes for all files, version bump, then links for all files - at start-up and on every open/save; both indexing paths construct and parse files with the same arguments. Not decided: order-dependence inside the resolvers, pickling fidelity, unordered sources of the file list."),
+})
+
 NA_REASON = "check under construction in this round (rules designed in DESIGN.md section 3, not yet implemented); will move to checks once its rules run"
 
 
